@@ -199,6 +199,29 @@ func collectFacts(p *packages.Package, fd *ast.FuncDecl, name string, m map[stri
 			}
 		}
 		boolFact(m, "proxy_Handle_defers_close_of_all_upconns_before_proxy", deferPos >= 0 && proxyPos > deferPos)
+		// C11: connections are counted once per peer after the dial loop and given back in a deferred function
+		forPos, cntPos, uncntDefer := -1, -1, false
+		for i, st := range fd.Body.List {
+			switch t := st.(type) {
+			case *ast.ForStmt:
+				forPos = i
+			case *ast.RangeStmt:
+				if rangeCallsWithArg(t, "countConn", "1") {
+					cntPos = i
+				}
+			case *ast.DeferStmt:
+				if fl, ok := t.Call.Fun.(*ast.FuncLit); ok {
+					ast.Inspect(fl.Body, func(n ast.Node) bool {
+						if rs, ok := n.(*ast.RangeStmt); ok && rangeCallsWithArg(rs, "countConn", "-1") {
+							uncntDefer = true
+						}
+						return true
+					})
+				}
+			}
+		}
+		boolFact(m, "health_Handle_counts_conn_per_peer_after_dial_loop", forPos >= 0 && cntPos > forPos && cntPos < proxyPos)
+		boolFact(m, "health_Handle_defers_uncount_per_peer", uncntDefer)
 	case "l4proxy.Handler.dialPeers":
 		// on a dial / header error the connections opened so far are closed before returning
 		ok := false
@@ -213,6 +236,120 @@ func collectFacts(p *packages.Package, fd *ast.FuncDecl, name string, m map[stri
 			return true
 		})
 		boolFact(m, "proxy_dialPeers_closes_opened_conns_on_error", ok)
+		counts, failsCounted := false, false
+		ast.Inspect(fd.Body, func(n ast.Node) bool {
+			if c, isCall := n.(*ast.CallExpr); isCall {
+				if _, nm := callName(c); nm == "countConn" {
+					counts = true
+				}
+			}
+			if is, isIf := n.(*ast.IfStmt); isIf && containsIdent(is.Cond, "err") {
+				ast.Inspect(is.Body, func(y ast.Node) bool {
+					if c, isCall := y.(*ast.CallExpr); isCall {
+						if _, nm := callName(c); nm == "countFailure" {
+							failsCounted = true
+						}
+					}
+					return true
+				})
+			}
+			return true
+		})
+		boolFact(m, "health_dialPeers_never_counts_conns", !counts)
+		boolFact(m, "health_dialPeers_counts_failure_on_error", failsCounted)
+	case "l4proxy.Handler.countFailure":
+		// returns before the failure is counted (the two configuration guards), and the forgetter
+		retBefore, counted, forget := 0, false, false
+		for _, st := range fd.Body.List {
+			if !counted {
+				ast.Inspect(st, func(n ast.Node) bool {
+					if c, ok := n.(*ast.CallExpr); ok {
+						if _, nm := callName(c); nm == "countFail" && len(c.Args) == 1 && exprString(c.Args[0]) == "1" {
+							counted = true
+						}
+					}
+					return true
+				})
+				if !counted {
+					ast.Inspect(st, func(n ast.Node) bool {
+						if _, ok := n.(*ast.ReturnStmt); ok {
+							retBefore++
+						}
+						return true
+					})
+				}
+				continue
+			}
+			if gs, ok := st.(*ast.GoStmt); ok {
+				if fl, ok := gs.Call.Fun.(*ast.FuncLit); ok {
+					slept := false
+					for _, b := range fl.Body.List {
+						ast.Inspect(b, func(n ast.Node) bool {
+							if c, ok := n.(*ast.CallExpr); ok {
+								r, nm := callName(c)
+								if r == "time" && nm == "Sleep" && len(c.Args) == 1 && containsIdent(c.Args[0], "failDuration") {
+									slept = true
+								}
+								if nm == "countFail" && len(c.Args) == 1 && exprString(c.Args[0]) == "-1" && slept {
+									forget = true
+								}
+							}
+							return true
+						})
+					}
+				}
+			}
+		}
+		m["health_countFailure_returns_before_counting"] = fmt.Sprintf("Nat := %d", retBefore)
+		boolFact(m, "health_countFailure_counts_then_forgets_after_failDuration", counted && forget)
+	case "l4proxy.LoadBalancing.tryAgain":
+		gate, wait := false, false
+		ast.Inspect(fd.Body, func(n ast.Node) bool {
+			if is, ok := n.(*ast.IfStmt); ok {
+				if be, ok := is.Cond.(*ast.BinaryExpr); ok && be.Op.String() == ">=" && containsIdent(be.X, "Since") && containsIdent(be.X, "start") && containsIdent(be.Y, "TryDuration") {
+					for _, b := range is.Body.List {
+						if r, ok := b.(*ast.ReturnStmt); ok && len(r.Results) == 1 && exprString(r.Results[0]) == "false" {
+							gate = true
+						}
+					}
+				}
+			}
+			if cc, ok := n.(*ast.CommClause); ok && cc.Comm != nil && containsIdent(cc.Comm, "After") && containsIdent(cc.Comm, "TryInterval") {
+				for _, b := range cc.Body {
+					if r, ok := b.(*ast.ReturnStmt); ok && len(r.Results) == 1 && exprString(r.Results[0]) == "true" {
+						wait = true
+					}
+				}
+			}
+			return true
+		})
+		boolFact(m, "health_tryAgain_gives_up_at_TryDuration_else_waits_TryInterval", gate && wait)
+	case "l4proxy.Handler.doActiveHealthCheck":
+		down, upAfter := false, false
+		for _, st := range fd.Body.List {
+			if is, ok := st.(*ast.IfStmt); ok && containsIdent(is.Cond, "err") {
+				ast.Inspect(is.Body, func(n ast.Node) bool {
+					if c, ok := n.(*ast.CallExpr); ok {
+						if _, nm := callName(c); nm == "setHealthy" && len(c.Args) == 1 && exprString(c.Args[0]) == "false" {
+							down = true
+						}
+					}
+					return true
+				})
+				continue
+			}
+			if down {
+				ast.Inspect(st, func(n ast.Node) bool {
+					if c, ok := n.(*ast.CallExpr); ok {
+						if _, nm := callName(c); nm == "setHealthy" && len(c.Args) == 1 && exprString(c.Args[0]) == "true" {
+							upAfter = true
+						}
+					}
+					return true
+				})
+			}
+		}
+		boolFact(m, "health_activeCheck_marks_down_on_dial_error_up_on_success", down && upAfter)
 	case "layer4.packetConn.SetReadDeadline":
 		// the deadline must be stored with sub-second resolution
 		unix, nano := false, false
@@ -517,4 +654,32 @@ func proxyFacts(fd *ast.FuncDecl, m map[string]string) {
 	boolFact(m, "proxy_copy_goroutine_per_upconn_counted_in_wg", copyPerUp)
 	boolFact(m, "proxy_pump_copies_tee_then_signals_then_closes_write_all", pumpOrder && pumpCopiesTee)
 	boolFact(m, "proxy_main_waits_copies_then_closewrite_down_then_receives", mainOrder)
+}
+
+func exprString(e ast.Expr) string {
+	switch t := e.(type) {
+	case *ast.BasicLit:
+		return t.Value
+	case *ast.Ident:
+		return t.Name
+	case *ast.UnaryExpr:
+		return t.Op.String() + exprString(t.X)
+	case *ast.ParenExpr:
+		return exprString(t.X)
+	}
+	return "?"
+}
+
+// rangeCallsWithArg: `for _, p := range ... { ... p.<method>(<arg>) ... }`
+func rangeCallsWithArg(rs *ast.RangeStmt, method, arg string) bool {
+	found := false
+	ast.Inspect(rs.Body, func(n ast.Node) bool {
+		if c, ok := n.(*ast.CallExpr); ok {
+			if _, nm := callName(c); nm == method && len(c.Args) == 1 && exprString(c.Args[0]) == arg {
+				found = true
+			}
+		}
+		return true
+	})
+	return found
 }
